@@ -15,5 +15,3 @@ if [ -z "$(cd $WT && git status --short)" ]; then echo "MUTATION DID NOT APPLY";
 VERIF_REPO=$WT ${MUT_TIER:+VERIF_TIER=$MUT_TIER} timeout 900 /verif/check $PID 2>&1 | grep -E "VIOLATION|KNOWN-FINDING|INFRA|OK tier|^  " | head -12
 echo "exit=${PIPESTATUS[0]}"
 git -C /repo worktree remove --force $WT
-# restore harness replace
-sed -i "s#replace github.com/obolnetwork/charon => .*#replace github.com/obolnetwork/charon => /repo#" /verif/harness/go.mod
